@@ -30,7 +30,16 @@ const c09Rule = "case = generated L1 history (info-tree updates, verified batche
 	"the last leaf of the named root; distinct = hash of (config, schedule)"
 
 func contentCase(prop string, ch choose.Chooser, cfg walkCfg, rec *ev.Recorder) error {
-	r, err := runWalk(ch, cfg)
+	// a third of the cases run the aggchain-prover (FEP) configuration (fep_test.go)
+	fep := ch.Int(0, 2, "fepConfiguration") == 0
+	var r *walkRes
+	var err error
+	if fep {
+		cfg.node.RequireBridge = false
+		r, _, err = fepWalk(ch, cfg)
+	} else {
+		r, err = runWalk(ch, cfg)
+	}
 	if err != nil {
 		return fmt.Errorf("INCONCLUSIVE: %v", err)
 	}
@@ -67,8 +76,11 @@ func contentCase(prop string, ch choose.Chooser, cfg walkCfg, rec *ev.Recorder) 
 			}
 		}
 	}
-	rec.Case(nt, fmt.Sprintf("%+v|%s", cfg.node, r.key()))
+	rec.Case(nt, fmt.Sprintf("%v|%+v|%s", fep, cfg.node, r.key()))
 	rec.ClassN("certificates_checked", len(r.m.certs))
+	if fep {
+		rec.ClassN("fep_certificates_checked", len(r.m.certs))
+	}
 	rec.ClassN("imported_exits_checked", imported)
 	rec.ClassN("imported_exits_outside_domain_skipped", r.m.outOfDomain)
 	if nt && rec.WantSample() {
